@@ -237,7 +237,60 @@ def r16_4(ctx):
     ctx.ob('R16.4', '__init__:count-starts-at-zero', ok, init, None, str(vals))
 
 
+def r16_6(ctx):
+    ctx.rule('R16.6', 'what a queue object does not carry to another process (everything outside __getstate__) is '
+                      'process-local and is re-created by the after-fork hook, which is also what a restored and a new '
+                      'queue start from; the hook is registered for forked children', floor=8)
+    m = ctx.model
+    for cq in ('queues:Queue', 'queues:JoinableQueue'):
+        ci = m.cls(cq)
+        gs = m.method(ci, '__getstate__')
+        af = m.method(ci, '_after_fork')
+        q.need(gs is not None and af is not None, '%s: __getstate__ / _after_fork not found' % cq)
+        carried = set()
+        for r in [x for x in walk_own(gs.node) if isinstance(x, ast.Return) and x.value is not None]:
+            for x in ast.walk(r.value):
+                if isinstance(x, ast.Attribute) and isinstance(x.value, ast.Name) and x.value.id == 'self':
+                    carried.add(x.attr)
+        if ci.name != 'Queue':
+            base_gs = m.method(m.cls('queues:Queue'), '__getstate__')
+            for r in [x for x in walk_own(base_gs.node) if isinstance(x, ast.Return) and x.value is not None]:
+                for x in ast.walk(r.value):
+                    if isinstance(x, ast.Attribute) and isinstance(x.value, ast.Name) and x.value.id == 'self':
+                        carried.add(x.attr)
+        from .generic import _self_assigned
+        assigned = set()
+        for c in m.mro(ci):
+            for name, fi in c.methods.items():
+                assigned |= _self_assigned(fi)
+        reset = set()
+        for c in m.mro(ci):
+            if '_after_fork' in c.methods:
+                reset |= _self_assigned(c.methods['_after_fork'])
+        for attr in sorted(assigned - carried):
+            ok = attr in reset
+            ctx.ob('R16.6', '%s.%s:process-local-state-reset-after-fork' % (ci.name, attr), ok, af, None,
+                   'not pickled, re-created by _after_fork' if ok else
+                   'self.%s is process-local (not in __getstate__) but is not reset by _after_fork: a forked child '
+                   'inherits the parent\'s value (e.g. a cancelled join: the child then exits without flushing the '
+                   'items it put)' % attr)
+    qi = m.func('queues:Queue.__init__')
+    regs = [c for (n, c) in q.calls(qi, 'register_after_fork')]
+    ok = bool(regs) and all(len(c.args) == 2 and ast.unparse(c.args[0]) == 'self' and
+                            ast.unparse(c.args[1]).endswith('._after_fork') for c in regs)
+    ctx.ob('R16.6', 'Queue.__init__:after-fork-hook-registered', ok, qi, regs[0] if regs else None,
+           'register_after_fork(self, Queue._after_fork)')
+    for name in ('__init__', '__setstate__'):
+        fi = m.func('queues:Queue.' + name)
+        calls_ = q.nodes_calling(fi, 'self._after_fork')
+        ok = bool(calls_) and fi.cfg.must_pass([fi.cfg.entry], [fi.cfg.exit], calls_, skip_labels=('x',))[0]
+        ctx.ob('R16.6', 'Queue.%s:starts-from-the-after-fork-state' % name, ok, fi, None, 'self._after_fork() on every path')
+
+
 def run(ctx):
+    r16_6(ctx)
+    from .generic import ctor_forwards_params
+    ctor_forwards_params(ctx, 'R16.7', ['queues'], floor=1)
     r16_1(ctx)
     r16_2(ctx)
     r16_3(ctx)
@@ -247,6 +300,9 @@ def run(ctx):
 
 _Q = 'billiard/queues.py'
 MUTANTS = [
+    ('cancelled-join-inherited-by-children', _Q, "        self._jointhread = None\n        self._joincancelled = False\n", "        self._jointhread = None\n", 'R16.6'),
+    ('joinable-queue-drops-maxsize', _Q, "        Queue.__init__(self, maxsize, ctx=ctx)\n", "        Queue.__init__(self, ctx=ctx)\n", 'R16.7'),
+    ('joinable-queue-forwards-only-extras', _Q, "        Queue.__init__(self, maxsize, ctx=ctx)\n", "        Queue.__init__(self, *args, **kwargs)\n", 'R16.7'),
     ('feeder-started-outside-the-buffer-lock', _Q, "        with self._notempty:\n            if self._thread is None:\n                self._start_thread()\n            self._buffer.append(obj)\n",
      "        if self._thread is None:\n            self._start_thread()\n        with self._notempty:\n            self._buffer.append(obj)\n", 'R16.3'),
     ('acquire-inside-try', _Q, "            if not self._rlock.acquire(block, timeout):\n                raise Empty\n            try:\n                if block:",
